@@ -3,7 +3,7 @@ CONSTANTS
   Ciphers = {"A128GCM", "A192GCM", "A256GCM", "COSEAES128CBC", "COSEAES128CTR", "COSEAES256CBC", "COSEAES256CTR"}
   Sessions = {1, 2}
   AdvSessions = {1}
-  Classes = {"flip_ct", "flip_iv", "flip_alg", "flip_tag", "strip_mac0", "strip_mac0+flip_ct", "strip_mac0+flip_iv", "strip_mac0+iv_len", "strip_mac0+empty_ct", "strip_mac0+truncate", "wrap_mac0", "retag", "drop_iv", "iv_len", "empty_ct", "truncate", "substitute", "plaintext", "bit_any"}
+  Classes = {"flip_ct", "flip_iv", "flip_alg", "flip_tag", "strip_mac0", "strip_mac0+flip_ct", "strip_mac0+flip_iv", "strip_mac0+iv_len", "strip_mac0+empty_ct", "strip_mac0+truncate", "wrap_mac0", "retag", "drop_iv", "iv_len", "empty_ct", "truncate", "substitute", "plaintext", "bit_any", "short_tag+flip_ct", "short_tag+flip_iv"}
   MaxRounds = 1000
   MaxMut = 1
   BareEncrypt0Accepted = FALSE
